@@ -580,6 +580,9 @@ def hCli (inp out : Json) : Except String Findings := do
     let fs := spec fs "C19.frame-other-ers" oldUnchanged
     let fs := spec fs "C19.frame-canary-ers" (cmd == .canaryFail || flat ersAfter == flat ersBefore)
     let fs := spec fs "C19.refuses-without-precondition" (Spec.C19.precondition cmd d.strategy.canary.isSome d.status.canary || err)
+    let ersExists := match d.status.canary with | some cs => cs.replicaSet == ersBefore.name | none => false
+    let fs := spec fs "C19.acts-when-applicable" (!(Spec.C19.mustAct cmd d.strategy.canary.isSome d.status.canary d.annotations
+                  && (cmd != .canaryFail || ersExists)) || !err)
     let fs := spec fs "C19.refusal-changes-nothing" (!err || (flat after == flat d && flat ersAfter == flat ersBefore && calls.patched.isEmpty && calls.updated.isEmpty))
     let fs := spec fs "C19.writes-documented-value" (err || Spec.C19.writtenOk cmd d.status.canary after.annotations)
     -- `fail` makes the canary failed *as the controller reads it* and touches nothing else of the ERS
@@ -855,6 +858,11 @@ def hErsReconcile (inp out : Json) : Except String Findings := do
        o.deleted.all (fun nm => match ownPods.find? (fun p => p.name == nm) with
                                 | some p => (match p.nodeOf with | some n => !canaryNodes.contains n | none => true)
                                 | none => true)))
+  -- C04 "... while every other eligible node keeps being served with the active template": during a
+  -- canary the active sync still creates the pods the rolling-update plan owes to the eligible nodes
+  -- outside the canary list (count of the proven plan: C02_count_bridge / C04_active_serves_rest)
+  let fs := spec fs "C04.active-serves-rest" (role != "active" || canaryNodes.isEmpty || faulted || o.kind != "ok" ||
+      decide (o.creates.length ≥ m.creates.length))
   let fs := spec fs "C04.unknown-inert" (role != "unknown" || (o.creates.isEmpty && o.deleted.isEmpty && o.labelAdds.isEmpty && o.labelRemoves.isEmpty))
   -- C04 "pods of the canary replica set on canary nodes carry the canary label during the canary" —
   -- paused or failed canaries included: a full canary sync (not throttled, no early error, no injected
@@ -903,7 +911,9 @@ def hErsReconcile (inp out : Json) : Except String Findings := do
     let fs := spec fs "C08.sync-paused-no-update-delete" (!(edsPaused || edsFrozen) || updDel.isEmpty)
     let fs := spec fs "C08.sync-frozen-no-create" (!edsFrozen || o.creates.isEmpty)
     match o.statusUpdate with
-    | some s => if s.status != "active" then fs else
+    | some s => if s.status != "active" || !isDefaulted d.strategy d.templateName then fs else
+        -- (a non-defaulted owner stops the sync early: the stored conditions are written back —
+        -- theorem C08_sync_flags_partial and its counterexample)
         spec fs "C08.sync-flags" ((!isCondTrue s.conds "RollingUpdatePaused" || edsPaused) &&
                                   (!isCondTrue s.conds "RolloutFrozen" || edsFrozen))
     | none => fs
